@@ -63,6 +63,10 @@ ASSUMPTIONS = [
     "discarded / not covered, which candidate is chosen, the Vh-vs-std comparison) are observed on the real "
     "run and passed to the model as inputs; the depth gate, the latch and all set surgery are computed by "
     "the model",
+    "extension (c18_vh.py): the Vh-vs-std comparison itself is additionally compared with the RealLike term of "
+    "Model/AdaptiveVh.lean at Float (1e-9 relative; Boolean answer outside that band; exact on the code's own "
+    "operands); the kernel hyper-parameters, the posterior variances and det(Kn + I) are inputs taken from the "
+    "real model; Float rounding is not modelled",
 ]
 MAX_JOBS = 14
 
